@@ -10,7 +10,8 @@ PROP = {'streams': [('c16', 600, 24000)],
          'accepted by Request::new(.., schema): the harness computes the level-n slice (BFS over attribute and tag values, n hops, entities kept '
          'whole; diffed with the model\'s Slice.atLevel for 2 requests x 5 levels) and compares is_authorized(slice) with is_authorized(full) on '
          'decision, reasons, (erroring id, error class); monotonicity of single-policy and set verdicts; set verdict = conjunction of members; '
-         'non-trivial = distinct (policy, verdict vector) and distinct (world, request, level, response)',
+         'non-trivial = distinct (policy, verdict vector) and distinct (world, request, level, response)'
+         '; plus 5 const-operand policies per world: a left operand of || / && or an if-test that is typed False / True without being a literal (has of an undeclared / required attribute, is of another / its own type, in towards a type the hierarchy excludes, atom && false, atom || true, negations) and that dereferences deeper (depth 1..5) than the rest of the policy',
  'theorems': ['level_monotone',
               'level_monotone_policy',
               'slice_monotone',
